@@ -108,7 +108,7 @@ func c15Tap(r *rng, id string) {
 		_, fin = dialCapture()
 		n.m.Join([]string{peerName + "/10.0.0.1:7946"})
 		fin()
-		req := append(ml.VerifEncodePushPullHeader(0, 0, false))
+		req := ml.VerifEncodePushPullHeader(0, 0, false)
 		hc := newFragConn(seal(req, true), nil)
 		ml.VerifHandleConn(n.m, hc)
 		streams = append(streams, hc.written())
